@@ -224,6 +224,10 @@ func c20Fold(c *core.Ctx, fn *ssa.Function) {
 				}
 			}
 		}
+		if !core.Reachable(r) {
+			c.Pass(rule, name, r.Pos(), "unreachable exit (constant condition)")
+			continue
+		}
 		good := fromElem && (strictRound || (eqRound && strictHash))
 		if strictRound {
 			byRound = true
